@@ -6,6 +6,7 @@ import (
 	"math"
 	"time"
 
+	"gitlab.com/gomidi/midi/v2"
 	"gitlab.com/gomidi/midi/v2/smf"
 
 	"verif/harness/mon"
@@ -25,7 +26,7 @@ func init() {
 			"horizon: queries up to 3 days of playing time (whatever the tick count), tempo events in a single track",
 			"inverse domain: durations below 2^40 microseconds and tick rates below 10^7 ticks per second (statement)",
 		},
-		Require: []string{"maps", "queries", "border_queries", "monotonic_pairs", "repeated_tick_maps", "late_first_event_maps", "do_events_compared", "inverse_triples", "queries_beyond_2^32_ticks"},
+		Require: []string{"maps", "queries", "border_queries", "monotonic_pairs", "repeated_tick_maps", "late_first_event_maps", "do_events_compared", "inverse_triples", "queries_beyond_2^32_ticks", "do_filtered_events_compared"},
 		Run:     runC11,
 	})
 }
@@ -188,6 +189,23 @@ func runC11(c *mon.Ctx) {
 				}
 			})
 		})
+		// filtered iteration: the times handed out must still be the tempo-map values
+		for _, flt := range [][]midi.Type{{midi.NoteOnMsg}, {midi.NoteOffMsg}, {smf.MetaTempoMsg}, {midi.NoteOnMsg, midi.NoteOffMsg}} {
+			trf := smf.ReadTracksFrom(bytes.NewReader(b)).Only(flt...)
+			if trf.Error() != nil {
+				break
+			}
+			c.Guard("panic:Do+Only", in, func() {
+				trf.Do(func(te smf.TrackEvent) {
+					c.Count("do_events_compared", 1)
+					c.Count("do_filtered_events_compared", 1)
+					num, segs := tm.Exact(te.AbsTicks)
+					if !tm.Within(te.AbsMicroSeconds, num, int64(segs)) {
+						c.Violation("do-time-filtered", fmt.Sprintf("Only(%v): track %d event at tick %d: AbsMicroSeconds %d, exact %d", flt, te.TrackNo, te.AbsTicks, te.AbsMicroSeconds, tm.Micros(num)), in, tm.Micros(num), te.AbsMicroSeconds)
+					}
+				})
+			})
+		}
 		if i < 1 {
 			c.Sample("tempo-map", map[string]any{"resolution": res, "events": fmt.Sprint(head8(tm.Events)), "queries": qs[:5]})
 		}
